@@ -337,6 +337,17 @@ func c17Run(c *evid.Ctx, cs c17Case) {
 		c.Violation("C17:in-flight-blamed-wrongly:"+cs.Site, fmt.Sprintf("at-rest mutation on %s was reported as in-flight corruption: %v", victim.Name, target.Report.Err), replay)
 	}
 	c.Count("detected", 1)
+	if cs.Field == "term" || cs.Field == "index" || cs.Field == "type" {
+		v := cs.Seed
+		if v < 0 {
+			v = -v
+		}
+		w := int64(64)
+		if cs.Field == "type" {
+			w = 8
+		}
+		c.Distinct("integer_field_bits_detected", fmt.Sprintf("%s:bit%d", cs.Field, v%w))
+	}
 }
 
 func runC17(c *evid.Ctx) {
